@@ -366,11 +366,14 @@ func makeTestNumber(ver, kind string, raw, rep []int, exp int) (View, *Source, s
 		if kind != "Q" {
 			fam := map[string][]string{"S": {"Sqrt", "SqrtRat", "SqrtBigInt", "SqrtBigRat"}, "C": {"CubeRoot", "CubeRootRat", "CubeRootBigInt", "CubeRootBigRat"}}[kind]
 			if raw[1] == 1 {
-				ctor = fam[(raw[0]/2)%4]
+				ctor = fam[(raw[0]/2+raw[0]/1000)%4]
 			} else {
 				ctor = fam[1+2*((raw[0]/2)%2)]
 			}
 		}
+		// the same constructor call made twice: the second result is the one that is used (what a constructor
+		// returns does not depend on earlier calls)
+		makeRoot(ver, ctor, big.NewInt(int64(raw[0])), big.NewInt(int64(raw[1])))
 		n := makeRoot(ver, ctor, big.NewInt(int64(raw[0])), big.NewInt(int64(raw[1])))
 		switch ver {
 		case "v1":
